@@ -1,2 +1,8 @@
-import BHS.Proofs.Fields
-#print axioms BHS.Chain.eventsOf_match
+set_option profiler true
+set_option profiler.threshold 20
+def o := "database/migrations/7_make_cols_driver_agnostic.up.sql"
+example : o.toList.take 20 = "database/migrations/".toList := by decide
+example : o.toUTF8.data.toList.take 20 = "database/migrations/".toUTF8.data.toList := by decide
+example : o.toUTF8.extract 0 20 = "database/migrations/".toUTF8 := by decide
+example : (o.startsWith "database/migrations/") = true := by decide
+example : ("database/migrations/".isPrefixOf o) = true := by decide
